@@ -270,8 +270,8 @@ Proof.
   - cbn. auto.
   - cbn. rewrite (read_text_ok t H). auto.
   - unfold prog_kind. destruct sin; cbn [den map concat fresh leaves_ok lfs_ok allP forallb].
-    + unfold g_cat. rewrite app_nil_r, (read_text_ok t H). rewrite H. repeat split; auto. apply g_ok_cat.
-    + unfold g_const. rewrite (read_text_ok t H). repeat split; auto. now apply g_ok_const.
+    + unfold det, g_cat. rewrite app_nil_r, (read_text_ok t H). rewrite H. repeat split; auto. apply g_ok_cat.
+    + unfold det, g_const. rewrite (read_text_ok t H). repeat split; auto. now apply g_ok_const.
 Qed.
 
 Theorem kinds_agree : forall pk sin te ta tr b extra,
